@@ -81,6 +81,27 @@ pub fn run(tier: &str, seed: u64, meta: &str, layouts: &[(String, String)]) -> R
                     }
                 }
             }
+            // (1b) the number-pad option is read on every event: flip it with update_engine and press the number-pad keys
+            {
+                let mut o2 = o.clone();
+                o2.numpad = !numpad;
+                let cfg2 = Cfg::new(&o2);
+                ctx.update(&cfg2);
+                for k in [0x0037u16, 0x0047, 0x0048, 0x0049, 0x004A, 0x004B, 0x004C, 0x004D, 0x004E, 0x004F, 0x0050, 0x0051, 0x0052, 0x0053, 0x0E35] {
+                    for m in [0u8, 2] {
+                        let out = ctx.key(k, m, 0);
+                        ctx.finish();
+                        rep.evaluations += 1;
+                        let exp = spec.expected(&layout, k, m, !numpad);
+                        let ok = match (&out, exp) { (Out::Single { text, .. }, Some(e)) => text == e, (Out::Single { text, .. }, None) => text.is_empty(), _ => false };
+                        if !ok {
+                            rep.fail(json!({"what": "number-pad key after the number-pad option was changed by update_engine", "layout": lname, "layout_file": lpath, "key": k, "modifier": m,
+                                "numpad_at_creation": numpad, "numpad_now": !numpad, "expected": exp, "got": format!("{:?}", out)}));
+                        }
+                    }
+                }
+                ctx.update(&cfg);
+            }
             // (2) from plain positions (no joining rule applies): the published keys, all four planes
             let keys: Vec<u16> = spec.spec_lookups.keys().map(|c| (c / 4) as u16).collect::<std::collections::BTreeSet<_>>().into_iter().collect();
             // prefixes typed with keys that exist in both layouts: k, k+a(aa-kar), A (a), 1, comma
